@@ -337,6 +337,12 @@ func (p *uPacketPacker) planInitialFlight(sealer sealer, maxSize protocol.ByteCo
 	if err != nil {
 		return fmt.Errorf("uquic: BuildFlight: %w", err)
 	}
+	// The builder decides how many datagrams there are. One beyond the budgets it was
+	// given is held to what its own packet can carry, not to the last budget: its header
+	// can be longer than that one's.
+	for i := len(budgets); i < len(payloads); i++ {
+		budgets = append(budgets, p.flightBudget(i, sealer, maxSize, v))
+	}
 	if err := validateInitialFlight(payloads, budgets, len(cryptoData)); err != nil {
 		return err
 	}
@@ -357,21 +363,38 @@ func (p *uPacketPacker) flightBudgets(cryptoLen int, sealer sealer, maxSize prot
 	}
 	budgets := make([]InitialDatagramBudget, n)
 	for i := range budgets {
-		plan := p.uSpec.InitialPacketSpec.planFor(i)
-		size := maxSize
-		if plan.PacketSize > 0 {
-			size = protocol.ByteCount(plan.PacketSize)
-		}
-		budgets[i] = InitialDatagramBudget{Plan: plan, MaxFrameBytes: p.initialFrameBudget(size, sealer, v)}
+		budgets[i] = p.flightBudget(i, sealer, maxSize, v)
 	}
 	return budgets
+}
+
+// flightBudget describes Initial datagram i of the flight. [UQUIC]
+func (p *uPacketPacker) flightBudget(i int, sealer sealer, maxSize protocol.ByteCount, v protocol.Version) InitialDatagramBudget {
+	plan := p.uSpec.InitialPacketSpec.planFor(i)
+	size := maxSize
+	if plan.PacketSize > 0 {
+		size = protocol.ByteCount(plan.PacketSize)
+	}
+	return InitialDatagramBudget{Plan: plan, MaxFrameBytes: p.initialFrameBudgetAhead(i, size, sealer, v)}
 }
 
 // initialFrameBudget is how many frame payload bytes an Initial packet of exactly
 // packetSize bytes can carry: the size minus the long header — with its Length varint
 // sized the way appendInitialPacketPayload sizes it — and the AEAD tag. [UQUIC]
 func (p *uPacketPacker) initialFrameBudget(packetSize protocol.ByteCount, sealer sealer, v protocol.Version) int {
+	return p.initialFrameBudgetAhead(0, packetSize, sealer, v)
+}
+
+// initialFrameBudgetAhead is initialFrameBudget for the Initial packet that is sent n
+// packets after the next one: its packet number can take more bytes than the next one's
+// (InitPacketNumberLengths, or a packet number that crosses an encoding boundary). [UQUIC]
+func (p *uPacketPacker) initialFrameBudgetAhead(n int, packetSize protocol.ByteCount, sealer sealer, v protocol.Version) int {
 	hdr := p.getLongHeader(protocol.EncryptionInitial, v)
+	if pm, ok := p.pnManager.(interface {
+		PeekInitialPacketNumberAhead(int) (protocol.PacketNumber, protocol.PacketNumberLen)
+	}); ok {
+		hdr.PacketNumber, hdr.PacketNumberLen = pm.PeekInitialPacketNumberAhead(n)
+	}
 	hdr.Length = packetSize
 	budget := packetSize - hdr.GetLength(v) - protocol.ByteCount(sealer.Overhead())
 	return int(max(budget, 0))
